@@ -128,9 +128,19 @@ class C18(Base):
             return rng.choice(ID_POOL)
         return "zz"
 
-    def gen_history(self, rng, maxlen):
+    def gen_history(self, rng, maxlen, big=False):
         sync = rng.random() < 0.7
         segs = ["init:%s:%s:%s" % ("s" if sync else "a", self.gen_locales(rng), self.gen_ids(rng))]
+        if big:
+            # MANY resource ids (9-40 distinct, added in one call or one by one, some removed again)
+            n = rng.choice([9, 10, 16, 17, 33, 40])
+            ids = ["r%02d%s" % (i, rng.choice("RO")) for i in range(n)]   # fixed width: both sides print the id set sorted
+            if rng.random() < 0.5:
+                segs.append("addm:" + ",".join(ids))
+            else:
+                segs += ["add:" + i for i in ids]
+            for i in rng.sample(ids, rng.randint(0, 4)):
+                segs.append("rm:" + i)
         nheld = 0
         ninfl = 0
         n = rng.randint(1, maxlen)
@@ -194,6 +204,8 @@ class C18(Base):
         n = 3000 if tier == "quick" else 200000
         for i in range(n):
             yield self.gen_history(rng, 14 if (tier == "quick" or i % 4) else 40)
+        for i in range(150 if tier == "quick" else 5000):
+            yield self.gen_history(rng, 14, big=True)
 
     def mutate(self, case, rng, n):
         area, _, payload = case.partition(" ")
